@@ -10,12 +10,12 @@
      [kademlia.ClosestN(key, rt, n)] is SPECIFIED as "the n keys nearest to
      [key], nearest first" ([closest_n]); the trie code is not verified.
    - [dht.keyToPeerMap] only ever holds pairs (kadKey(p), p) (runCrawler,
-     dht.go:403-408), so the model keeps its domain: the list [t_kmap].
+     dht.go:409-414), so the model keeps its domain: the list [t_kmap].
    - [dht.peerAddrs] maps a peer to its multiaddrs.  The only thing
      GetClosestPeers does with an address is compute its IP group
      (manet.ToIP, peerdiversity.IPGroupKey; both modelled, not verified): an
      address is [Some g] (g = a number naming the group key) or [None] (not an
-     IP address, or an empty group key: the two [continue]s at dht.go:559-565).
+     IP address, or an empty group key: the two [continue]s at dht.go:565-572).
    - Go [int]s are [nat]: sizes are table sizes, K and the limit are
      non-negative (negative configured values are outside the model). *)
 From Verif.Lib Require Import GoSem Bits.
@@ -51,7 +51,7 @@ Definition addrs_of (t : table) (p : N) : list addr :=
 (* ---- ipGroupCounts: map[group]map[peer]struct{} ------------------------- *)
 (* The map of sets is the set of its (group, peer) pairs; len(counts[g]) is the
    number of pairs with first component g.  Creating an empty inner map
-   (dht.go:566-568) has no observable effect. *)
+   (dht.go:573-575) has no observable effect. *)
 Definition counts := list (N * N).
 Definition pair_eqb (a b : N * N) : bool := N.eqb (fst a) (fst b) && N.eqb (snd a) (snd b).
 Definition members (g : N) (c : counts) : list N :=
@@ -59,17 +59,18 @@ Definition members (g : N) (c : counts) : list N :=
 Definition count_add (g p : N) (c : counts) : counts :=
   if existsb (pair_eqb (g, p)) c then c else (g, p) :: c.
 
-(* dht.go:557-574, the loop over one peer's addresses.  Result: the counts,
+(* dht.go:563-586, the loop over one peer's addresses.  Result: the counts,
    and [false] when the peer is skipped ([continue PeersLoop]).  Exactly as
-   coded: the test is on the SIZE of the group's set, also when the peer is
-   already in it, and the groups of the addresses before the offending one
-   keep the peer counted. *)
+   coded: an address whose group already counts this peer is passed over
+   (dht.go:576-579); otherwise the size of the group's set is tested; the
+   groups of the addresses before an offending one keep the peer counted. *)
 Fixpoint addr_loop (limit : nat) (p : N) (l : list addr) (c : counts) : counts * bool :=
   match l with
   | [] => (c, true)
   | None :: r => addr_loop limit p r c
   | Some g :: r =>
-      if limit <=? length (members g c) then (c, false)
+      if existsb (pair_eqb (g, p)) c then addr_loop limit p r c
+      else if limit <=? length (members g c) then (c, false)
       else addr_loop limit p r (count_add g p c)
   end.
 
@@ -77,7 +78,7 @@ Record scan_st := { s_counts : counts; s_peers : list N }.
 Definition scan_init : scan_st := {| s_counts := []; s_peers := [] |}.
 Inductive scan_res := SReturn (peers : list N) | SContinue (st : scan_st).
 
-(* dht.go:546-585, PeersLoop over one page of keys *)
+(* dht.go:552-597, PeersLoop over one page of keys *)
 Fixpoint scan_page (t : table) (K limit : nat) (page : list N) (st : scan_st) : scan_res :=
   match page with
   | [] => SContinue st
@@ -97,7 +98,7 @@ Fixpoint scan_page (t : table) (K limit : nat) (page : list N) (st : scan_st) : 
 Definition go_slice_from {A} (l : list A) (n : nat) : res (list A) :=
   if n <=? length l then Ok (skipn n l) else Panic "slice bounds out of range".
 
-(* dht.go:540-587: for nClosest := 0; nClosest < rt.Size(); nClosest += step.
+(* dht.go:547-598: for nClosest := 0; nClosest < rt.Size(); nClosest += step.
    The Go loop has no bound; [fuel] counts iterations and running out of it is
    [Blocked] (the loop is still running). *)
 Fixpoint page_loop (fuel : nat) (t : table) (key : N) (K limit step nclosest : nat) (st : scan_st)
@@ -138,14 +139,14 @@ Definition flat_scan (t : table) (key : N) (K limit : nat) : list N :=
 Definition get_closest_eval (t : table) (key : N) (K limit : nat) : res (list N) :=
   if 0 <? paging_step K limit then Ok (flat_scan t key K limit) else get_closest t key K limit.
 
-(* ---- a crawl and the table swap (runCrawler, dht.go:400-421) ----------- *)
+(* ---- a crawl and the table swap (runCrawler, dht.go:406-428) ----------- *)
 (* foundPeers: the peers the crawl kept, with the addresses read from the
    peerstore; map keys, so pairwise different. *)
 Definition crawl := list (N * list addr).
 Definition table_of (c : crawl) : table :=
   {| t_rt := map fst c; t_kmap := map fst c; t_addrs := c |}.
 
-(* dht.go:360-366: the starting peers of the next crawl are the peers found by
+(* dht.go:366-372: the starting peers of the next crawl are the peers found by
    the previous one (without addresses: the crawler reads them from the host's
    peerstore) followed by the bootstrap peers; nothing removes a bootstrap peer
    that was also found. *)
@@ -160,24 +161,23 @@ Definition peer_in_group (c : crawl) (g p : N) : bool :=
 Definition group_size (c : crawl) (g : N) : nat :=
   length (filter (peer_in_group c g) (map fst c)).
 
-(* the three separately locked assignments, in the order of the code *)
-Definition swap_addrs (t : table) (c : crawl) : table :=
-  {| t_rt := t_rt t; t_kmap := t_kmap t; t_addrs := c |}.
-Definition swap_kmap (t : table) (c : crawl) : table :=
-  {| t_rt := t_rt t; t_kmap := map fst c; t_addrs := t_addrs t |}.
-Definition swap_rt (t : table) (c : crawl) : table :=
-  {| t_rt := map fst c; t_kmap := t_kmap t; t_addrs := t_addrs t |}.
+(* runCrawler, dht.go:416-428: the three fields are assigned while all three
+   write locks are held (taken in the order readers take theirs), so the swap
+   is one step for every reader.  (Until /repo commit fb69ae6 the three
+   assignments were separately locked and a reader in between saw the routing
+   table of one crawl with the addresses or the key map of another; the
+   harness still places readers where that window was.) *)
 
 (* Events of the crawler goroutine and of readers.  A reader holds the three
    read locks while it runs, so it sees the table of one instant. *)
 Inductive fev :=
 | FCrawl (c : crawl)                     (* crawler.Run returned; the new maps are built *)
-| FStep                                  (* the next locked assignment *)
+| FSwap                                  (* the locked assignment of the three fields *)
 | FRead (key : N) (K limit : nat).
 
 Record fstate := {
   f_tbl : table;
-  f_pending : option (crawl * nat);      (* crawl being installed, assignments already done *)
+  f_pending : option crawl;              (* crawl finished, not yet installed *)
   f_crawls : list crawl;                 (* every completed crawl so far, newest first *)
   f_reads : list (table * N * nat * nat * res (list N))   (* log: table seen, key, K, limit, answer *)
 }.
@@ -188,75 +188,55 @@ Definition do_read (s : fstate) (key : N) (K limit : nat) : fstate :=
   {| f_tbl := f_tbl s; f_pending := f_pending s; f_crawls := f_crawls s;
      f_reads := (f_tbl s, key, K, limit, get_closest (f_tbl s) key K limit) :: f_reads s |}.
 
-(* as coded: three steps *)
-Definition fstep3 (s : fstate) (e : fev) : option fstate :=
+Definition fstep (s : fstate) (e : fev) : option fstate :=
   match e with
   | FCrawl c =>
       match f_pending s with
       | Some _ => None
-      | None => Some {| f_tbl := f_tbl s; f_pending := Some (c, 0); f_crawls := c :: f_crawls s;
+      | None => Some {| f_tbl := f_tbl s; f_pending := Some c; f_crawls := c :: f_crawls s;
                         f_reads := f_reads s |}
       end
-  | FStep =>
+  | FSwap =>
       match f_pending s with
-      | Some (c, 0) => Some {| f_tbl := swap_addrs (f_tbl s) c; f_pending := Some (c, 1);
-                               f_crawls := f_crawls s; f_reads := f_reads s |}
-      | Some (c, 1) => Some {| f_tbl := swap_kmap (f_tbl s) c; f_pending := Some (c, 2);
-                               f_crawls := f_crawls s; f_reads := f_reads s |}
-      | Some (c, _) => Some {| f_tbl := swap_rt (f_tbl s) c; f_pending := None;
-                               f_crawls := f_crawls s; f_reads := f_reads s |}
+      | Some c => Some {| f_tbl := table_of c; f_pending := None;
+                          f_crawls := f_crawls s; f_reads := f_reads s |}
       | None => None
       end
   | FRead key K limit => Some (do_read s key K limit)
   end.
 
-(* the specification the property asks for: one step *)
-Definition fstep1 (s : fstate) (e : fev) : option fstate :=
-  match e with
-  | FCrawl c =>
-      match f_pending s with
-      | Some _ => None
-      | None => Some {| f_tbl := f_tbl s; f_pending := Some (c, 0); f_crawls := c :: f_crawls s;
-                        f_reads := f_reads s |}
-      end
-  | FStep =>
-      match f_pending s with
-      | Some (c, _) => Some {| f_tbl := table_of c; f_pending := None;
-                               f_crawls := f_crawls s; f_reads := f_reads s |}
-      | None => None
-      end
-  | FRead key K limit => Some (do_read s key K limit)
-  end.
-
-Fixpoint frun (step : fstate -> fev -> option fstate) (evs : list fev) (s : fstate) : option fstate :=
+Fixpoint frun (evs : list fev) (s : fstate) : option fstate :=
   match evs with
   | [] => Some s
-  | e :: r => match step s e with Some s' => frun step r s' | None => None end
+  | e :: r => match fstep s e with Some s' => frun r s' | None => None end
   end.
 
-(* ---- the constructor (NewFullRT, dht.go:145-262) ------------------------ *)
-(* Only what reaches GetClosestPeers.  [o_amino]: the protocol prefix is the
-   Amino one, for which Config.Validate insists on bucket size 20.  The config
-   is built by hand, not from Defaults, so an absent BucketSize option leaves 0.
-   The struct literal at dht.go:232-262 has no ipDiversityFilterLimit field. *)
+(* ---- the constructor (NewFullRT, dht.go:145-267) ------------------------ *)
+(* Only what reaches GetClosestPeers.  [dbucket] is amino.DefaultBucketSize,
+   [dlimit] amino.DefaultMaxPeersPerIPGroup (inputs of the model: the harness
+   passes the values of the constants).  The hand-built config starts from
+   BucketSize = dbucket (dht.go:165); on the Amino prefix ([o_amino])
+   Config.Validate insists on exactly dbucket; a bucket size below 1 is refused
+   (dht.go:178-180); the configured limit is copied into the struct
+   (dht.go:267). *)
 Record opts := { o_amino : bool; o_bucket : option nat; o_limit : option nat }.
 Record frt := { f_K : nat; f_limit : nat }.
-Definition amino_bucket : nat := 20.
-Definition new_fullrt (o : opts) : option frt :=
-  let k := match o_bucket o with Some k => k | None => 0 end in
-  if o_amino o && negb (k =? amino_bucket) then None
-  else Some {| f_K := k; f_limit := 0 |}.
-(* what the options ask for; [dflt] is amino.DefaultMaxPeersPerIPGroup *)
-Definition configured_limit (dflt : nat) (o : opts) : nat :=
-  match o_limit o with Some l => l | None => dflt end.
+(* what the options ask for *)
+Definition configured_limit (dlimit : nat) (o : opts) : nat :=
+  match o_limit o with Some l => l | None => dlimit end.
+Definition new_fullrt (dbucket dlimit : nat) (o : opts) : option frt :=
+  let k := match o_bucket o with Some k => k | None => dbucket end in
+  if o_amino o && negb (k =? dbucket) then None
+  else if k <? 1 then None
+  else Some {| f_K := k; f_limit := configured_limit dlimit o |}.
 
-(* ---- bulk operations (bulkMessageSend, dht.go:1141-1312) ---------------- *)
-(* dht.go:1177-1180 *)
+(* ---- bulk operations (bulkMessageSend, dht.go:1152-1327) ---------------- *)
+(* dht.go:1192-1195 *)
 Definition bulk_chunk_size (nkeys K numPeers : Z) : res Z :=
   c <- go_div (nkeys * K * 2) numPeers ;;
   Ok (if Z.eqb c 0 then 1%Z else c).
 
-(* divideByChunkSize, dht.go:1315-1340 *)
+(* divideByChunkSize, dht.go:1330-1355 *)
 Fixpoint div_loop {A} (chunk : nat) (keys next : list A) (progress : nat) : list (list A) :=
   match keys with
   | [] => if progress =? 0 then [] else [next]
@@ -288,17 +268,18 @@ Definition bulk_send (t : table) (K limit : nat) (keys : list N) : res op_res :=
   match keys with
   | [] => Ok RNil
   | _ =>
+      if length (t_kmap t) =? 0 then Ok RErr else        (* dht.go:1188-1190 *)
       c <- bulk_chunk_size (Z.of_nat (length keys)) (Z.of_nat K) (Z.of_nat (length (t_kmap t))) ;;
       groups <- divide_by_chunk_size keys c ;;
       sent <- closest_each t K limit (concat groups) ;;
-      (* numSuccessfulToWaitFor = int(K * waitFrac * 1.2) (dht.go:1164) is 0 when
-         K = 0; the workers then skip every send (dht.go:1214-1218: 0 successes
+      (* numSuccessfulToWaitFor = int(K * waitFrac * 1.2) (dht.go:1175) is 0 when
+         K = 0; the workers then skip every send (dht.go:1229-1233: 0 successes
          already "enough", lastSuccess is the zero time).  For K >= 1 and the
          harness's waitFrac = 1 the threshold is only reached after K sends. *)
       Ok (if K =? 0 then RErr else if any_nonempty sent then RNil else RErr)
   end.
 
-(* Provide / PutValue (dht.go:592-651, 928-1002) on the same network:
+(* Provide / PutValue (dht.go:603-662, 939-1013) on the same network:
    execOnMany over no peers counts 0 successes, which is an error. *)
 Definition single_send (t : table) (key : N) (K limit : nat) : res op_res :=
   peers <- get_closest t key K limit ;;
